@@ -55,3 +55,19 @@ Definition list_zero_bytes : list N :=
    54; 54; 61; 76; 49; 1; 55; 51; 61; 48; 1; 49; 48; 61; 48; 48; 48; 1].
 Definition decoded_nock (c : ctx) (bytes : list N) : option message :=
   match factory c real_caps bytes true false with Ok m => Some m | _ => None end.
+
+(* a header whose deep constructor does NOT pre-create its repeating group (as FIX44's NoHops 627):
+   gmeta's deep flag is false *)
+Definition ex_hops : gmeta := GM [ tr 628 15 1 false false false false ] [] true.
+Definition ex_header_h : gmeta := GM
+  [ tr 8 15 1 false false true true; tr 9 1 2 false false true true; tr 34 1 6 true false false false;
+    tr 35 15 3 false false false true; tr 49 15 4 true false false false; tr 56 15 5 true false false false;
+    tr 627 5 7 false true false false ]
+  [ (627, ex_hops) ] false.
+Definition ex_ctx_h : ctx :=
+  mkCtx ((627, 5) :: (628, 15) :: c_fields ex_ctx) (c_msgs ex_ctx)
+        ex_header_h (c_trailer ex_ctx) (c_hdr_init ex_ctx) (c_trl_init ex_ctx) (c_begin ex_ctx) (c_render ex_ctx).
+Definition hb_hops : message :=
+  let m := mk_message ex_ctx_h md_hb true in
+  let h := with_elems (addf (ex_hdr_fields (m_hdr m)) 627 [49]) 627 [addf (create_group ex_hops true) 628 [88]] in
+  mkMsg (m_type m) h (addf (m_body m) 112 [84]) (m_trl m).
